@@ -25,7 +25,7 @@ def run(tier):
     run.outside = ['TeX-level validity of names containing TeX specials', 'more than 3 terms per constraint', 'the missing ";" terminator of the OPB standard (the documented output has none)']
     run.assumptions = ['the two readers written for the check define what a rendering "denotes"', 'CrossHair exhaustiveness accounting']
     T = 300 if tier == 'quick' else 1200
-    names = ['h_e_pages', 'h_e_opb_sizes', 'h_e_guess', 'h_e_render_extend'] + ['h_e_opb2_%d' % i for i in range(12)] + ['h_e_cnf2_%d' % i for i in range(7)]
+    names = ['h_e_pages', 'h_e_wide', 'h_e_opb_sizes', 'h_e_guess', 'h_e_render_extend'] + ['h_e_opb2_%d' % i for i in range(12)] + ['h_e_cnf2_%d' % i for i in range(7)]
     if tier != 'quick':
         names += ['h_e_opb3_%d' % i for i in range(12)] + ['h_e_cnf3_%d' % i for i in range(7)]
     conds = [xengine.Cond('c12', n, T, symbolic=False) for n in names]
